@@ -9,8 +9,11 @@ import (
 	"crypto/rand"
 	"errors"
 	"fmt"
+	"os"
+	"path/filepath"
 	"regexp"
 
+	"github.com/fatedier/frp/pkg/config"
 	"github.com/fatedier/frp/pkg/util/util"
 	"verifharness/hx"
 )
@@ -66,6 +69,22 @@ func runRunIDs(cfg *hx.RunCfg) error {
 			bad("runid:login-acknowledged-without-entropy", "LoginResp without error while crypto/rand failed")
 		}
 	}()
+	// legacy INI: the one configuration value the C12 model depends on (the per-client port quota) must arrive
+	// unchanged through the legacy loader, as it does through TOML
+	if cfg.Stats != "" {
+		dir := filepath.Dir(cfg.Stats)
+		ini := filepath.Join(dir, "c12_legacy_frps.ini")
+		toml := filepath.Join(dir, "c12_frps.toml")
+		_ = os.WriteFile(ini, []byte("[common]\nbind_port = 7000\nmax_ports_per_client = 3\n"), 0o644)
+		_ = os.WriteFile(toml, []byte("bindPort = 7000\nmaxPortsPerClient = 3\n"), 0o644)
+		ci, _, e1 := config.LoadServerConfig(ini, false)
+		ct, _, e2 := config.LoadServerConfig(toml, false)
+		if e1 != nil || e2 != nil || ci == nil || ct == nil {
+			bad("legacy-ini:load-failed", fmt.Sprintf("loading the quota test configurations failed: %v %v", e1, e2))
+		} else if ci.MaxPortsPerClient != 3 || ct.MaxPortsPerClient != 3 {
+			bad("legacy-ini:max-ports-per-client", fmt.Sprintf("max_ports_per_client = 3 arrives as %d through the legacy ini loader and %d through toml", ci.MaxPortsPerClient, ct.MaxPortsPerClient))
+		}
+	}
 	logins := 0
 	seenL := map[string]bool{}
 	for i := 0; i < cfg.N; i++ {
